@@ -65,6 +65,12 @@ def generate(rs: int, tier: str, index: int) -> dict:
     step: Dict[str, Any] = {"id": 0, "k": kind, "p": lit, "graded": ch.chance(0.5), "reverse": ch.chance(0.5)}
     if kind in ("lead", "proxy", "extreme", "queries") and ch.chance(0.3):
         step["mutate"] = True  # history on the same object: query, overwrite the coefficients in place, query again
+    if ch.chance(0.25):
+        step["scribble"] = True
+    if kindc == "float" and kind in ("decompose", "lead", "queries") and size and ch.chance(0.2):
+        # an overflowed coefficient: infinities are legal values
+        t = ch.below(len(lit["coefficients"]))
+        lit["coefficients"][t][ch.below(size)] = ch.choice([float("inf"), float("-inf")])
     if kind in ("lead", "proxy", "extreme") and ch.chance(0.3):
         step["primer"] = True  # an earlier query on a different polynomial whose exponent matrix holds the same numbers in another width
     if ch.chance(0.35):  # the queries say nothing about the retain options: they must hold under any of them
@@ -140,6 +146,13 @@ class Runner:
                     with numpoly.global_options(**step.get("options", {})):
                         if step.get("primer"):
                             self._primer(step, kind, g, r, tag, numpoly)
+                        if step.get("scribble") and p.size:
+                            # an earlier caller edited the arrays the accessors handed out (they are computed copies)
+                            e = p.exponents
+                            e[...] = e * 2 + 1
+                            for c in p.coefficients:
+                                numpy.asarray(c)[...] = 7
+                            self.bump("probe:accessor_results_scribbled")
                         fp = self.check(kind, step, p, names, els, nv, g, r, tag, numpoly)
                         if step.get("mutate") and p.size:
                             # the same object again, after its coefficients were overwritten in place
